@@ -16,7 +16,7 @@ CFG = dict(
     classify=classify,
     imports=["From Verif.C10 Require Import Nf Model Spec MapsModel MapsSpec.", "Open Scope N_scope."],
     checker="check_any",
-    n=dict(quick=400, thorough=4800),
+    n=dict(quick=400, thorough=1600),
     shard=50,
     rule="interface-name sets (0-21 names, <=15 bytes) built from workload prefixes / host-style bases with tiny alphabets "
          "so that shared prefixes, names that are prefixes of others, one-char suffixes and duplicates are common; both "
